@@ -3,6 +3,8 @@ pub mod modelchk;
 pub mod c01;
 pub mod c02;
 pub mod c04;
+pub mod c09;
+pub mod c10;
 pub mod c15;
 
 use crate::evidence::Shard;
@@ -13,6 +15,8 @@ pub fn plan_for(id: &str) -> Option<Plan> {
         "C01" => c01::plan(),
         "C02" => c02::plan(),
         "C04" => c04::plan(),
+        "C09" => c09::plan(),
+        "C10" => c10::plan(),
         "C15" => c15::plan(),
         _ => return None,
     })
@@ -23,6 +27,8 @@ pub fn shard_for(id: &str, ctx: &Ctx) -> Option<Shard> {
         "C01" => c01::shard(ctx),
         "C02" => c02::shard(ctx),
         "C04" => c04::shard(ctx),
+        "C09" => c09::shard(ctx),
+        "C10" => c10::shard(ctx),
         "C15" => c15::shard(ctx),
         _ => return None,
     })
